@@ -20,8 +20,8 @@ HARNESSES = [
     H("c02_term_eq_cmp_pair", "Term::eq(a,b) <=> key(a)==key(b); symmetric; cmp==Equal <=> eq; cmp antisymmetric; cmp == order on keys (blank < IRI < literal < variable)", bound=B1, timeout=1500),
     H("c02_term_cmp_transitive", "Term::cmp transitive on triples of atoms (<= and Equal)", bound=B1, timeout=1500),
     H("c02_nsterm_eq_override", "NsTerm::eq(prefix+suffix, iri) <=> whole IRIs equal, for every split point; never equal to a non-IRI", bound="3-byte IRIs over {a,b}, all 4 split points", timeout=900),
-    H("c02_term_hash_pair", "equal terms feed identical byte sequences to any Hasher (recording hasher)", bound=B1, tiers=("thorough",), timeout=2400),
-    H("c02_langtag_laws", "LanguageTag: == / Ord / Hash all compare ASCII-case-insensitively and agree with each other", bound="2 ASCII letters per tag, all letter values", tiers=("thorough",), timeout=3000),
+    H("c02_term_hash_pair", "equal terms feed identical byte sequences to any Hasher (recording hasher: length + two checksums of the bytes written)", bound=B1, timeout=1500),
+    H("c02_langtag_laws", "LanguageTag: == / Ord / Hash all compare ASCII-case-insensitively and agree with each other", bound="2 ASCII letters per tag, all letter values", timeout=1500, stubs=False),
 ]
 
 
